@@ -6,6 +6,7 @@ import (
 	"encoding/base64"
 	"encoding/json"
 	"fmt"
+	"html"
 	"math/rand"
 	"net/url"
 	"strings"
@@ -458,6 +459,7 @@ func (s *stack) addPayload(r *rand.Rand, w *wire, ep endpoint, tag string, valid
 
 type observation struct {
 	rs       *sut.Resp
+	method   string
 	elapsed  time.Duration
 	sentAt   time.Time
 	idpCalls int
@@ -482,11 +484,22 @@ func findLeaks(rs *sut.Resp, w *wire, cands map[string]string) []string {
 		return nil
 	}
 	hay := haystack(rs)
+	// the same text with HTML entities, JSON escapes and percent-escapes undone: an escaped secret is still revealed
+	hays := []string{hay, html.UnescapeString(hay), jsonUnescaper.Replace(hay)}
+	if u, err := url.PathUnescape(hay); err == nil {
+		hays = append(hays, u)
+	}
 	pres := w.presented()
 	var out []string
 	for _, name := range sortedKeys(cands) {
 		v := cands[name]
-		if v == "" || !strings.Contains(hay, v) {
+		found := false
+		for _, h := range hays {
+			if v != "" && strings.Contains(h, v) {
+				found = true
+			}
+		}
+		if !found {
 			continue
 		}
 		echoed := false
@@ -501,6 +514,8 @@ func findLeaks(rs *sut.Resp, w *wire, cands map[string]string) []string {
 	}
 	return out
 }
+
+var jsonUnescaper = strings.NewReplacer(`\u0026`, "&", `\u003c`, "<", `\u003e`, ">", `\"`, `"`, `\\`, `\`, `\/`, "/")
 
 func sortedKeys(m map[string]string) []string {
 	out := make([]string, 0, len(m))
@@ -517,7 +532,7 @@ func sortedKeys(m map[string]string) []string {
 
 // send performs the request and collects what the property speaks about.
 func (s *stack) send(w *wire, ep endpoint, p payload, extraHidden map[string]string) observation {
-	o := observation{sentAt: time.Now()}
+	o := observation{sentAt: time.Now(), method: w.method}
 	o.rs = s.as.Client.Do(w.req())
 	o.elapsed = time.Since(o.sentAt)
 	if ep.idpEP != "" && p.idpKey != "" {
